@@ -204,6 +204,9 @@ type comp struct {
 	// Fix adjusts the expected config for values that are set by the base section or computed.
 	Fix    func(exp reflect.Value, got reflect.Value)
 	Fields []field
+	// Doc lists what docs/eng/*-generator.md state as the default of a field (Go path → value);
+	// it is compared with the config a component gets from the bare base section.
+	Doc map[string]any
 }
 
 var (
@@ -261,6 +264,76 @@ func httpGunFields() []field {
 
 func gunComponent(ec engine.Config) (any, error) { return ec.Pools[0].NewGun() }
 
+func httpGunFix(exp, got reflect.Value) {
+	exp.FieldByName("Target").SetString("127.0.0.1:8080")
+	exp.FieldByName("TargetResolved").SetString("127.0.0.1:8080")
+	// computed, not decoded: the DNS cache is switched off for targets that are already resolved
+	exp.FieldByName("Client").FieldByName("Dialer").FieldByName("DNSCache").SetBool(false)
+}
+
+// httpGunDoc: the defaults docs/eng/http-generator.md states ("Default: …") for the http guns.
+// ssl is false for http/connect and "true by default" for http2 (the gun's own error message).
+func httpGunDoc(ssl bool) map[string]any {
+	return map[string]any{
+		"SSL":                                    ssl,
+		"Client.ConnectSSL":                      false,
+		"Client.Transport.TLSHandshakeTimeout":   time.Second,
+		"Client.Transport.DisableKeepAlives":     false,
+		"Client.Transport.DisableCompression":    true,
+		"Client.Transport.MaxIdleConns":          0,
+		"Client.Transport.IdleConnTimeout":       90 * time.Second,
+		"Client.Transport.ResponseHeaderTimeout": time.Duration(0),
+		"Client.Transport.ExpectContinueTimeout": time.Second,
+		"Client.Dialer.Timeout":                  3 * time.Second,
+		"Client.Dialer.DualStack":                true,
+		"Client.Dialer.KeepAlive":                120 * time.Second,
+		"AnswLog.Filter":                         "error",
+		"AutoTag.URIElements":                    2,
+		"AutoTag.NoTagOnly":                      true,
+		"SharedClient.Enabled":                   false,
+	}
+}
+
+// documentedDefaults: the component built from the bare base section holds the documented defaults.
+func documentedDefaults(res *vkit.Result, c comp) {
+	if c.Doc == nil {
+		return
+	}
+	cs := map[string]any{"component": c.Name, "section": c.Base}
+	key := "C17/" + c.Name
+	ec, stage, err := decodeFull(poolWith(c.Section, clone(c.Base).(map[string]any)))
+	if err != nil {
+		res.Violate(key+"/valid-config-rejected", fmt.Sprintf("the minimal section was rejected at %s: %v", stage, err), cs)
+		return
+	}
+	obj, err := c.Component(ec)
+	if err != nil {
+		res.Violate(key+"/valid-config-rejected", fmt.Sprintf("component construction from the minimal section failed: %v", err), cs)
+		return
+	}
+	got, ok := findType(obj, c.ConfType)
+	if !ok {
+		res.Inconclusive(true, "%s: no %s inside %T", c.Name, c.ConfType, obj)
+		return
+	}
+	got = readable(got)
+	for path, want := range c.Doc {
+		v := got
+		for _, p := range strings.Split(path, ".") {
+			v = v.FieldByName(p)
+		}
+		if !v.IsValid() {
+			res.Inconclusive(true, "%s: no field %s", c.Name, path)
+			continue
+		}
+		if fmt.Sprint(v.Interface()) != fmt.Sprint(want) {
+			res.Violate(key+"/documented-default", fmt.Sprintf("%s is %v when not configured, documented default %v", path, v.Interface(), want), cs)
+		}
+		res.Count("documented_defaults_compared", 1)
+	}
+	res.Eval("documented-defaults "+c.Name, true)
+}
+
 func comps() []comp {
 	return []comp{
 		{Name: "result/phout", Section: "result", Base: map[string]any{"type": "phout", "destination": "/c17/out.phout"},
@@ -290,7 +363,7 @@ func comps() []comp {
 				exp.FieldByName("TargetResolved").SetString("127.0.0.1:8080")
 				// computed, not decoded: the DNS cache is switched off for targets that are already resolved
 				exp.FieldByName("Client").FieldByName("Dialer").FieldByName("DNSCache").SetBool(false)
-			}, Fields: httpGunFields()},
+			}, Fields: httpGunFields(), Doc: httpGunDoc(false)},
 		{Name: "gun/connect", Section: "gun", Base: map[string]any{"type": "connect", "target": "127.0.0.1:8080"},
 			ConfType: reflect.TypeOf(phttp.GunConfig{}), Default: func() any { return phttp.DefaultConnectGunConfig() }, Component: gunComponent,
 			Fix: func(exp, got reflect.Value) {
@@ -298,7 +371,7 @@ func comps() []comp {
 				exp.FieldByName("TargetResolved").SetString("127.0.0.1:8080")
 				// computed, not decoded: the DNS cache is switched off for targets that are already resolved
 				exp.FieldByName("Client").FieldByName("Dialer").FieldByName("DNSCache").SetBool(false)
-			}, Fields: httpGunFields()},
+			}, Fields: httpGunFields(), Doc: httpGunDoc(false)},
 		{Name: "gun/http/scenario", Section: "gun", Base: map[string]any{"type": "http/scenario", "target": "127.0.0.1:8080"},
 			ConfType: reflect.TypeOf(phttp.GunConfig{}), Default: func() any { return phttp.DefaultHTTPGunConfig() }, Component: gunComponent,
 			Fix: func(exp, got reflect.Value) {
@@ -306,7 +379,27 @@ func comps() []comp {
 				exp.FieldByName("TargetResolved").SetString("127.0.0.1:8080")
 				// computed, not decoded: the DNS cache is switched off for targets that are already resolved
 				exp.FieldByName("Client").FieldByName("Dialer").FieldByName("DNSCache").SetBool(false)
-			}, Fields: httpGunFields()},
+			}, Fields: httpGunFields(), Doc: httpGunDoc(false)},
+		{Name: "gun/http2", Section: "gun", Base: map[string]any{"type": "http2", "target": "127.0.0.1:8080"},
+			ConfType: reflect.TypeOf(phttp.GunConfig{}), Default: func() any { return phttp.DefaultHTTP2GunConfig() }, Component: gunComponent,
+			Fix: httpGunFix, Fields: httpGunFields(), Doc: httpGunDoc(true)},
+		{Name: "gun/http2/scenario", Section: "gun", Base: map[string]any{"type": "http2/scenario", "target": "127.0.0.1:8080"},
+			ConfType: reflect.TypeOf(phttp.GunConfig{}), Default: func() any { return phttp.DefaultHTTP2GunConfig() }, Component: gunComponent,
+			Fix: httpGunFix, Fields: httpGunFields(), Doc: httpGunDoc(true)},
+		{Name: "gun/grpc/scenario", Section: "gun", Base: map[string]any{"type": "grpc/scenario", "target": "127.0.0.1:8888"},
+			// the scenario gun copies its config, field by field, into the config of the plain grpc gun it wraps
+			ConfType: reflect.TypeOf(grpcgun.GunConfig{}), Default: func() any { return grpcgun.DefaultGunConfig() }, Component: gunComponent,
+			Fix: func(exp, got reflect.Value) { exp.FieldByName("Target").SetString("127.0.0.1:8888") },
+			Fields: []field{
+				fd("timeout", "Timeout", "4s"),
+				fb("tls", "TLS", true),
+				{Key: "reflect_port", Lit: 9999, Text: "9999", GoPath: "ReflectPort", Want: int64(9999), Wrong: wrongInt},
+				fs("dial_options.authority", "DialOptions.Authority", "auth.example"),
+				fd("dial_options.timeout", "DialOptions.Timeout", "6s"),
+				fs("answlog.path", "AnswLog.Path", "/c17/grpcs-answ.log"),
+				fs("answlog.filter", "AnswLog.Filter", "error"),
+				{Key: "target", Lit: "127.0.0.1:8888", Text: "127.0.0.1:8888", GoPath: "Target", Want: "127.0.0.1:8888", Wrong: wrongStr, Bad: []any{""}},
+			}, Doc: map[string]any{"TLS": false}},
 		{Name: "gun/grpc", Section: "gun", Base: map[string]any{"type": "grpc", "target": "127.0.0.1:8888"},
 			ConfType: reflect.TypeOf(grpcgun.GunConfig{}), Default: func() any { return grpcgun.DefaultGunConfig() }, Component: gunComponent,
 			Fix: func(exp, got reflect.Value) { exp.FieldByName("Target").SetString("127.0.0.1:8888") },
@@ -1047,6 +1140,7 @@ func main() {
 		}
 		// the empty subset: pure defaults
 		defaultsAndPlaceholders(res, c, rand.New(rand.NewSource(0)), propFile, &props, false)
+		documentedDefaults(res, c)
 	}
 	schedules(res, rng)
 	if bin := os.Getenv("VERIF_PANDORA_BIN"); bin != "" {
